@@ -104,8 +104,17 @@ func run(r *vk.Run) {
 		pg.Count["programs/yield-"+mode.String()]++
 		pg.Count[fmt.Sprintf("programs/goroutines-%02d", len(p.gs))]++
 		if out.hung {
+			fmt.Fprintf(os.Stderr, "C11: case %d (%s, yield %s) did not finish within %v\n%s\n", i, desc, mode, progWatchdog, out.hungDetail)
+			if out.hungAfterPanic > 0 {
+				// a panic inside the library was recovered by the harness and left the object unusable (GetAndUpdate does not
+				// release its read lock when its get callback panics): the rest of the program waits for that lock forever.
+				// The program is abandoned; whatever race led to the panic is in the detector's log.
+				pg.Count["abandoned-hung-after-recovered-panic/"+fam.name]++
+				r.Note("case %d (%s, yield %s) abandoned: it hung after %d recovered panic(s); %s", i, trunc(desc, 200), mode, out.hungAfterPanic, trunc(out.hungDetail, 1500))
+				continue
+			}
 			// a program that does not finish is not this property's subject, but it must not pass silently
-			pg.inconclusive("hang/"+fam.name, fmt.Sprintf("case %d (%s, yield %s) did not finish within %v", i, desc, mode, progWatchdog))
+			pg.inconclusive("hang/"+fam.name, fmt.Sprintf("case %d (%s, yield %s) did not finish within %v; %s", i, desc, mode, progWatchdog, trunc(out.hungDetail, 3000)))
 			continue
 		}
 		if out.hungCons {
